@@ -76,6 +76,7 @@ plane_harness!(clip_plane_top, 5);
 // @ob props=C03,C02 tier=quick kind=P cfg=core-std timeout=1800
 // @fn view_frustum::outcode ; ClipVert::new ; ClipPlane::is_inside
 // @clause type invariant of ClipVert established by its constructor: for every finite point, bit k of the outcode is set iff the k-th frustum inequality is violated (outcode 0 iff -w <= x,y,z <= w); position and attribute are stored unchanged; is_inside(plane k) iff bit k is clear
+#[cfg(not(verif_skip_clip_outcode_matches_planes))]
 #[kani::proof]
 #[kani::unwind(8)]
 fn clip_outcode_matches_planes() {
@@ -104,6 +105,7 @@ fn vert_oc(oc: u8) -> ClipVert<F> {
 // @ob props=C03 tier=quick kind=P cfg=core-std timeout=600
 // @fn view_frustum::status
 // @clause trivial accept/reject over all 2^18 outcode triples: Hidden iff some plane has all three vertices outside; Visible iff all outcodes are zero; Clipped otherwise
+#[cfg(not(verif_skip_clip_status_all_outcodes))]
 #[kani::proof]
 #[kani::unwind(5)]
 fn clip_status_all_outcodes() {
@@ -132,6 +134,7 @@ fn same_vert(a: &ClipVert<F>, b: &ClipVert<F>) -> bool {
 // @ob props=C03 tier=quick kind=P cfg=core-std timeout=900
 // @fn <[Tri<ClipVert<A>>] as Clip>::clip ; view_frustum::clip
 // @clause a triangle wholly inside the frustum (all outcodes zero) is emitted unchanged, bit for bit, for every position and attribute payload
+#[cfg(not(verif_skip_clip_visible_unchanged))]
 #[kani::proof]
 #[kani::unwind(5)]
 fn clip_visible_unchanged() {
@@ -192,6 +195,7 @@ hidden_harness!(clip_hidden_top, 32, 2, 4);
 // @ob props=C03 tier=quick kind=P cfg=core-std timeout=900
 // @fn <[Tri<ClipVert<A>>] as Clip>::clip
 // @clause batch independence on the trivial paths: in a batch [visible, hidden, visible] exactly the two visible triangles are emitted, in order and unchanged, i.e. the result for a triangle does not depend on its neighbours in the call
+#[cfg(not(verif_skip_clip_batch_trivial_paths))]
 #[kani::proof]
 #[kani::unwind(6)]
 fn clip_batch_trivial_paths() {
